@@ -1,10 +1,10 @@
 use std::cell::Cell;
 use std::sync::atomic::Ordering;
 use std::mem::ManuallyDrop;
-#[cfg(not(feature = "circ_verif"))]
+#[cfg(not(feature = "circ_verif_auto"))]
 use std::sync::atomic::AtomicU64;
 
-#[cfg(feature = "circ_verif")]
+#[cfg(feature = "circ_verif_auto")]
 use crate::verif::HookedU64 as AtomicU64;
 
 use crate::ebr_impl::{cs, global_epoch, Guard, Tagged, HIGH_TAG_WIDTH};
